@@ -97,7 +97,7 @@ def gen_sessions(rng, nevents, opts=None):
             outcomes.append(("partial", rng.randint(1, 3)) if rng.random() < opts.get("p_partial", 0.2) else "fail")
         else:
             outcomes.append("ok")
-    return {"iters": its, "outcomes": outcomes}
+    return {"iters": its, "outcomes": outcomes, "fail_types": opts.get("fail_types")}
 
 
 # ---------------------------------------------------------------------------------------
@@ -161,8 +161,14 @@ def run_case(case, wd, sessions=None):
     given = []
     world["faults_on"] = True
 
+    ftypes = sessions.get("fail_types")
+
     def failfn(n, call, cl):
         o = outs[n] if (n < len(outs) and world["faults_on"]) else "ok"
+        if ftypes is not None and o != "ok":
+            lt = "_".join(call["h"].split("_")[1:-1])
+            if lt not in ftypes:
+                o = "ok"
         given.append(o)
         if o == "ok":
             return None
@@ -377,4 +383,15 @@ def case_to_gallina(case, res, sessions=None):
         iters.append("(CIter {} {} {} {} {} {} {} {} {})".format(
             gZ(it["now"]), gbool(it.get("restart", False)), delivered, calls, glist(ws), q,
             gZ(ob["next"] if ob["next"] is not None else -1), gbool(ob["exc"] is not None), gZ(it["limit"])))
-    return f"(mk_ccase {ctx.gccfg(case)} {goutcomes(sessions['outcomes'])} {allbus} {glist(iters)})"
+    # queue content (objects having entries) observed at every handler invocation
+    rname = {l: r for r, l in ctx.lname_of.items()}
+    pk_of = {t["name"]: t["pkey"] for t in case["cfg"]["types"]}
+
+    def gq(lt, k):
+        pk = pk_of[rname[lt]]
+        comps = list(k) if isinstance(k, (tuple, list)) else [k]
+        return f"({gN(ctx.tid(lt))},{gZ(ctx.key(k))},{ctx.gobj({'_pkey_' + a: v for a, v in zip(pk, comps)})})"
+    qobs = glist(glist(gq(lt, k) for (lt, k) in (c.get("qobjs") or []) if lt in rname)
+                 for ob in res["iters"] for c in ob["calls"])
+    return (f"(with_qobs (mk_ccase {ctx.gccfg(case)} {goutcomes(sessions['outcomes'])} {allbus} {glist(iters)})"
+            f" {qobs})")
